@@ -136,13 +136,17 @@ FrameOK(val, k) ==
 ---------------------------------------------------------------------------
 (* what the as-is code is predicted to do with each legal spelling          *)
 
+\* literal8 is legal only where a `string` is read (APPEND data, BINARY), not
+\* in astring position ("~" is an ATOM-CHAR)
+P(w, n, k) == IF k = "lit8plus" THEN PString(w, n) ELSE PAString(w, n)
+
 ParsesTo(val, k, suf) ==
-  LET r == PAString(Wire(val, k) \o suf, Len(val))
+  LET r == P(Wire(val, k) \o suf, Len(val), k)
   IN r.ok /\ r.val = val /\ r.rest = suf
 
 ReparseOK(val, k, suf) ==
-  LET r == PAString(Wire(val, k) \o suf, Len(val))
-      r2 == PAString(ReHdr(r.raw), Len(val))
+  LET r == P(Wire(val, k) \o suf, Len(val), k)
+      r2 == P(ReHdr(r.raw), Len(val), k)
   IN r.ok /\ r2.ok /\ r2.val = val /\ r2.rest = <<>>
 
 Outcome(val, k) ==
